@@ -166,6 +166,21 @@ def gen(rng, passes):
     for p in info["pots"]:
         if "@first" in p["name"]:
             continue
+        if rng.random() < 0.35:
+            # reads whose value is thrown away or only tested: still one conversion each (the throw-away read before the real one,
+            # `reading or default`); only the number of conversions is judged here
+            stmts = rng.sample([f"{p['name']}.read()", f"spare = {p['name']}.read() or 1", f"{p['name']}.read()\n{p['name']}.read()", f"if {p['name']}.read() > 2000:\n    mon.write(\"never\")",
+                                f"gate = {p['name']}.read() > 5 and {p['name']}.read() >= 0"], rng.choice([1, 2]))
+            for st in stmts:
+                n_reads = st.count(".read()")
+                if "and" in st:
+                    continue   # (short-circuit: the number of conversions depends on the first value)
+                body.append(f"mon.write(\"@AW:{p['name']}:{n_reads}\")")
+                body += st.split("\n")
+                body.append("mon.write(7)")
+    for p in info["pots"]:
+        if "@first" in p["name"]:
+            continue
         if rng.random() < 0.25:
             # a comprehension that reads the input once per element: three conversions, three (possibly different) values
             body.append(f"mon.write(\"@AC:{p['name']}\")")
@@ -312,7 +327,7 @@ def monitor(events, info, passes):
                     counts["pot_reads"] += need
                     idx += need
                     if fresh != need:
-                        problems.append(("pot-busy-wait", f"{p['name']}: {fresh} analogRead events in `while {p['name']}.read() < 600: pass`, the tape needs {need} tests"))
+                        problems.append(("pot-busy-wait", f"{p['name']}: {fresh} analogRead events between the marker and the next line, the statements there make {need} read() call(s)"))
                 elif text == f"@AC:{p['name']}":
                     waiting = "comp"
                     fresh = 0
